@@ -10,25 +10,25 @@ props = [json.loads(l)["id"] for l in (VERIF / "properties.jsonl").read_text().s
 CLAIMED = {
     "C04": dict(
         technique="static analysis: slot-family extraction over the ast (producers of name<->index pairs normalised by inlining the model's accessors), def-use of remove_unused in sorted_assignments, template skeleton parsing; since the rebuild the function-level clauses are decided on abstract values (sa/av.py: symbolic summaries of what a function computes, compared with the vetted reference value; three-valued: ok / violation / undecided)",
-        text="Decides the structure the property factors through, for all models at once: every producer of a (name, index) pair (18 sites: enumerate / counters / template lists / matrices) numbers its family's slots over a sequence proven order-equivalent to the family's public index function; index templates refuse unknown names; init templates use their own index function; the argument-order enums are exactly the permutations and only reach the formal list; declared counts belong to the family's size class.",
+        text="Decides the structure the property factors through, for all models at once: every producer of a (name, index) pair (18 sites: enumerate / counters / template lists / matrices) numbers its family's slots over a sequence proven order-equivalent to the family's public index function; index templates refuse unknown names; init templates use their own index function; the argument-order enums are exactly the permutations and only reach the formal list; declared counts belong to the family's size class. Also: the ordered accessors of the model sort sets (one slot per atom even when it belongs to several components).",
         note="Assumes sympy prints Indexed(X,i) as X[i] and that sequence expressions keep the shapes the normaliser knows (comprehensions, tuple/list, accessor calls); an unknown shape is reported, never assumed equal. No generated code is executed.",
         ref="3/C04",
     ),
     "C05": dict(
         technique="static analysis: path enumeration of the scheme builder + AC-normalised term comparison; alias table and template/Func-tuple inspection; since the rebuild the function-level clauses are decided on abstract values (sa/av.py: symbolic summaries of what a function computes, compared with the vetted reference value; three-valued: ok / violation / undecided)",
-        text="Decides, for every model at once, that each path of explicit_euler for a state derivative prints the derivative first and stores exactly STATE + DT*DERIV at the state's slot (counter advanced once, after the store), that every accepted alias and Scheme member maps to the builder of its family and the generated function carries the requested name, that the result array is freshly allocated and inputs are const / never stored through, and that the dt symbol is the formal argument. Numerical equality up to rounding is not decided.",
+        text="Decides, for every model at once, that each path of explicit_euler for a state derivative prints the derivative first and stores exactly STATE + DT*DERIV at the state's slot (counter advanced once, after the store), that every accepted alias and Scheme member maps to the builder of its family and the generated function carries the requested name, that the result array is freshly allocated and inputs are const / never stored through, and that the dt symbol is the formal argument. Numerical equality up to rounding is not decided. Also: generator methods keep no state between calls (a remembered argument tuple fixes later signatures) and jax functions carry a plain @jax.jit (no buffer donation).",
         note="Terms are compared syntactically modulo associativity/commutativity of + and *; sympy's printing of Add/Mul/Indexed is trusted.",
         ref="3/C05",
     ),
     "C06": dict(
         technique="static analysis: path table of generalized_rush_larsen against reference terms; condition-chain analysis of fraction_numerator_is_nonzero; per-scheme evaluation of add_schemes' keyword arguments; since the rebuild the function-level clauses are decided on abstract values (sa/av.py: symbolic summaries of what a function computes, compared with the vetted reference value; three-valued: ok / violation / undecided)",
-        text="Decides the formula structure: Euler fallback iff the own-state derivative is identically zero, guarded exponential-integrator term iff the zero-division check is needed, plain term otherwise, linearisation = diff of the state's own expression w.r.t. its own state and printed before use; the guard is elided only for a**-1 and products of accepted factors; delta reaches the guard for every scheme that takes it. Convergence / exactness / finiteness are numerical consequences and are not decided. Also: sign() - which only differentiation of abs() puts into a linearisation - is printed by every backend as a function that is 0 at 0.",
+        text="Decides the formula structure: Euler fallback iff the own-state derivative is identically zero, guarded exponential-integrator term iff the zero-division check is needed, plain term otherwise, linearisation = diff of the state's own expression w.r.t. its own state and printed before use; the guard is elided only for a**-1 and products of accepted factors; delta reaches the guard for every scheme that takes it. Convergence / exactness / finiteness are numerical consequences and are not decided. Also: sign() - which only differentiation of abs() puts into a linearisation - is printed by every backend as a function that is 0 at 0. Also: CodeGenerator.scheme keeps no result between calls and the `delta` key of the configuration is merged with the command-line value itself.",
         note="sympy.diff and the printers are trusted; predicates are opaque atoms.",
         ref="3/C06",
     ),
     "C07": dict(
         technique="static analysis: sibling cross-check of path tables (hybrid vs explicit Euler vs generalized RL) after term normalisation; option-flow of stiff_states/delta; since the rebuild the function-level clauses are decided on abstract values (sa/av.py: symbolic summaries of what a function computes, compared with the vetted reference value; three-valued: ok / violation / undecided)",
-        text="Decides that hybrid_rush_larsen's path table is {not STIFF or DIFF_ZERO -> the explicit Euler term; STIFF and not DIFF_ZERO -> exactly the two generalized-RL terms}, with STIFF := state name in set(stiff_states) (None = empty), same slot discipline, and that stiff_states/delta reach exactly the builders that take them.",
+        text="Decides that hybrid_rush_larsen's path table is {not STIFF or DIFF_ZERO -> the explicit Euler term; STIFF and not DIFF_ZERO -> exactly the two generalized-RL terms}, with STIFF := state name in set(stiff_states) (None = empty), same slot discipline, and that stiff_states/delta reach exactly the builders that take them. Also: the `stiff_states` / `scheme` configuration keys are merged with the command-line values themselves (not with values already altered depending on another option).",
         note="Numerical agreement of generated steps is not decided; the three builders are compared as term tables.",
         ref="3/C07",
     ),
@@ -73,19 +73,19 @@ CLAIMED.update({
     ),
     "C02": dict(
         technique="static analysis: C printer resolution table with vetted verdicts, ast checks of gotranx overrides (Mod, Piecewise, Float), regex-AST check of post-processing, C template / count / slot-family checks; since the rebuild the function-level clauses are decided on abstract values (sa/av.py: symbolic summaries of what a function computes, compared with the vetted reference value; three-valued: ok / violation / undecided)",
-        text="Decides necessary conditions: every producible class is printed by a vetted value-preserving method or an analysed gotranx method (Mod with the divisor's sign, ternary conditionals), post-processing only rewrites whole words, index chains / counts / const formals / slot layout have the required shape. The known integer-division defect is reported as a KNOWN-FINDING. That the C code compiles and agrees numerically is not decided.",
+        text="Decides necessary conditions: every producible class is printed by a vetted value-preserving method or an analysed gotranx method (Mod with the divisor's sign, ternary conditionals), post-processing only rewrites whole words, index chains / counts / const formals / slot layout have the required shape. The known integer-division defect is reported as a KNOWN-FINDING. That the C code compiles and agrees numerically is not decided. Also: the front end shared with the other backends (operator table, folds, precedence, vocabulary, conditional builders) and the replacement function of bool_to_int evaluated per word.",
         note="Only a compiler decides compilation; numerics not decided; printer table for sympy 1.14.0.",
         ref="3/C02",
     ),
     "C03": dict(
         technique="static analysis: size-class analysis of num_return_values vs the extent of the filled array, template skeleton checks, JaxPrinter rewrite rule, emitted-API table; since the rebuild the function-level clauses are decided on abstract values (sa/av.py: symbolic summaries of what a function computes, compared with the vetted reference value; three-valued: ok / violation / undecided)",
-        text="Decides that every method hands the JAX template the extent of the array it fills, that the template returns exactly _values_0.._values_{n-1} in order and JaxPrinter rewrites exactly the stores into `values`, that templates are functional (no in-place stores) and that every numpy.<name> a print method can emit is callable that way under jax.numpy with n-ary And/Or keeping all operands. Importability / jit / numerics are not decided.",
+        text="Decides that every method hands the JAX template the extent of the array it fills, that the template returns exactly _values_0.._values_{n-1} in order and JaxPrinter rewrites exactly the stores into `values`, that templates are functional (no in-place stores) and that every numpy.<name> a print method can emit is callable that way under jax.numpy with n-ary And/Or keeping all operands. Importability / jit / numerics are not decided. Also: the shared front end; every keyword handed to the method template is a named, used parameter of the jax template; get_code generates for the model it was given in every backend.",
         note="jax itself is not executed.",
         ref="3/C03",
     ),
     "C08": dict(
         technique="static analysis: guard-structure checks (registry scope, redefinition raise before set merge, recorded kinds, predicate), pairing guards, frozen table of every except clause; since the rebuild the function-level clauses are decided on abstract values (sa/av.py: symbolic summaries of what a function computes, compared with the vetted reference value; three-valued: ok / violation / undecided)",
-        text="Decides that the guards exist, see every definition and cannot be bypassed: redefinitions raise before atoms are merged in sets, gather_atoms records all four kinds (tagged), check_components runs first for every component, d<x>_dt always goes through find_state, undefined symbols become MissingSymbolError, and no except clause outside the vetted table can swallow an error. That every concrete ill-formed text raises is not decided.",
+        text="Decides that the guards exist, see every definition and cannot be bypassed: redefinitions raise before atoms are merged in sets, gather_atoms records all four kinds (tagged), check_components runs first for every component, d<x>_dt always goes through find_state, undefined symbols become MissingSymbolError, and no except clause outside the vetted table can swallow an error. That every concrete ill-formed text raises is not decided. Also: one atom per entry of a declaration block, atoms registered over every item of a line, sort_assignments hands every dependency to graphlib, no path fabricates a symbol for an unknown name.",
         note="lark / graphlib behaviour trusted.",
         ref="3/C08",
     ),
@@ -103,19 +103,19 @@ CLAIMED.update({
     ),
     "C14": dict(
         technique="static analysis: array-safety lint over the NumPy printer resolution table (vetted inherited methods + fragments of gotranx methods), class-table constant folding, shape-template checks; since the rebuild the function-level clauses are decided on abstract values (sa/av.py: symbolic summaries of what a function computes, compared with the vetted reference value; three-valued: ok / violation / undecided)",
-        text="Decides that no scalar-only or batch-reducing construct can be emitted for any producible class (conditional expressions, and/or/not, math.*, reductions such as numpy.all / allclose / .reduce), that a surviving Not is normalised before printing, and that result shapes use the batch axis states.shape[1] for all three Shape members. Column-wise numerical equality is not decided.",
+        text="Decides that no scalar-only or batch-reducing construct can be emitted for any producible class (conditional expressions, and/or/not, math.*, reductions such as numpy.all / allclose / .reduce), that a surviving Not is normalised before printing, and that result shapes use the batch axis states.shape[1] for all three Shape members. Column-wise numerical equality is not decided. Also: logical connectives are built evaluated, so no unevaluated Not reaches the scalar-only printer.",
         note="sympy 1.14.0 vetted table.",
         ref="3/C14",
     ),
     "C15": dict(
         technique="static analysis: clone-consistency and bookkeeping checks of the Myokit converter (rename sites, substitution chains, initial-value lookup, two-pass export); since the rebuild the function-level clauses are decided on abstract values (sa/av.py: symbolic summaries of what a function computes, compared with the vetted reference value; three-valued: ok / violation / undecided)",
-        text="Decides only necessary bookkeeping conditions of the converter. The main content of the property - the generated rhs equals Myokit's own evaluation - is NOT decided and cannot be decided statically; this check is claimed for the clauses named in its evidence only.",
+        text="Decides only necessary bookkeeping conditions of the converter. The main content of the property - the generated rhs equals Myokit's own evaluation - is NOT decided and cannot be decided statically; this check is claimed for the clauses named in its evidence only. Also: units on export, writer rows and unvetted printer overrides on the save-and-reload path.",
         note="Myokit is not executed; dynamics are not decided.",
         ref="3/C15",
     ),
     "C16": dict(
         technique="static analysis: shape of the singularity rewrite (linear use of the original expression), skip predicate, search loop, lookup scope; since the rebuild the function-level clauses are decided on abstract values (sa/av.py: symbolic summaries of what a function computes, compared with the vetted reference value; three-valued: ok / violation / undecided)",
-        text="Decides that the rewrite uses the original expression once on the regular branch (today it does not: KNOWN-FINDING, a test pins the defective output), that exactly the infinite singularities are skipped, that the search covers every stateful dependency model-wide without early exit, and that nothing changes without singularities. Correctness of sympy's limits and numerical agreement are not decided.",
+        text="Decides that the rewrite uses the original expression once on the regular branch (today it does not: KNOWN-FINDING, a test pins the defective output), that exactly the infinite singularities are skipped, that the search covers every stateful dependency model-wide without early exit, and that nothing changes without singularities. Correctness of sympy's limits and numerical agreement are not decided. Also: the expression is returned unchanged on exactly the leaves where nothing is removable.",
         note="sympy.singularities / limit trusted.",
         ref="3/C16",
     ),
@@ -127,7 +127,7 @@ CLAIMED.update({
     ),
     "C19": dict(
         technique="static analysis: reserved-name extraction from template skeletons / argument tables vs presence of a guard; whole-word regex check; grammar terminals; printed-text-only interpolation lint over print methods; since the rebuild the function-level clauses are decided on abstract values (sa/av.py: symbolic summaries of what a function computes, compared with the vetted reference value; three-valued: ok / violation / undecided)",
-        text="Decides the set of names the generated code uses for itself and whether a guard covers it (today none: KNOWN-FINDING), that post-processing cannot corrupt identifiers, that only the exact token `pi` is the constant, that the Myokit importer renames consistently, and that print methods only interpolate printed text (sympy's reserved-word renaming cannot be bypassed). Behaviour per identifier is not decided. Also: `t` and `time` are the time symbol of every model and `t` is never a missing variable, so the generated functions' own time argument is never re-bound from the model.",
+        text="Decides the set of names the generated code uses for itself and whether a guard covers it (today none: KNOWN-FINDING), that post-processing cannot corrupt identifiers, that only the exact token `pi` is the constant, that the Myokit importer renames consistently, and that print methods only interpolate printed text (sympy's reserved-word renaming cannot be bypassed). Behaviour per identifier is not decided. Also: `t` and `time` are the time symbol of every model and `t` is never a missing variable, so the generated functions' own time argument is never re-bound from the model. Also: no run-time generated temporaries (cse / numbered_symbols / Dummy), whole-name matching in the C index functions, writer constants.",
         note="",
         ref="3/C19",
     ),
